@@ -76,6 +76,8 @@ def py_value_typed(v, h):
     import numpy as np
     import pandas as pd
     x = py_value(v)
+    if v is None and h % 6 == 5:
+        return pd.NA            # pandas' missing-value singleton: pd.isnull(pd.NA) is True
     if v is None or v[0] in ("nat", "nan", "str"):
         return x
     k = h % 6
@@ -193,7 +195,10 @@ def gen_field(rng, kinds=("lit", "int", "float", "date"), start=0, maxsize=24, s
         return {"k": "float", "size": size, "start": start, "dd": dd, "fmt": fmt, "sep": rng.choice([".", ".", ","])}
     n = rng.choice([1, 1, 2, 3])
     fm = rng.sample(DATE_FORMATS, n)
-    return {"k": "date", "size": date_width(fm[0]) + rng.randint(0, 3), "start": start, "formats": fm, "aslist": n != 1 or rng.random() < 0.3}
+    if rng.random() < 0.12:
+        # a format list whose formats can parse the same text differently: the first declared format that parses decides
+        fm = rng.choice([["%d/%m/%Y", "%m/%d/%Y"], ["%m/%d/%Y", "%d/%m/%Y"], ["%Y-%m-%d", "%Y-%d-%m"]])
+    return {"k": "date", "size": date_width(fm[0]) + rng.randint(0, 3), "start": start, "formats": fm, "aslist": len(fm) != 1 or rng.random() < 0.3}
 
 
 def gen_value(rng, fd, missing=0.12):
